@@ -363,6 +363,35 @@ func c20Stacks(r *tr.Run, c *Ctx) int {
 }
 
 // ------------------------------------------------------------------ Prometheus metrics on a router
+// c20Labels returns the distinct name-label combinations of the router metrics ("metric{handler,publisher,subscriber}").
+func c20Labels(reg *prometheus.Registry, handlerName string) []string {
+	set := map[string]bool{}
+	mfs, _ := reg.Gather()
+	for _, mf := range mfs {
+		short := map[string]string{"handler_execution_time_seconds": "handler", "publish_time_seconds": "publish", "subscriber_messages_received_total": "sub"}[mf.GetName()]
+		if short == "" {
+			continue
+		}
+		for _, m := range mf.GetMetric() {
+			v := map[string]string{}
+			for _, lp := range m.GetLabel() {
+				v[lp.GetName()] = lp.GetValue()
+			}
+			h := v["handler_name"]
+			if h == handlerName {
+				h = "H"
+			}
+			set[fmt.Sprintf("%s{%s,%s,%s}", short, h, v["publisher_name"], v["subscriber_name"])] = true
+		}
+	}
+	out := []string{}
+	for k := range set {
+		out = append(out, k)
+	}
+	sort.Strings(out)
+	return out
+}
+
 func c20Gather(reg *prometheus.Registry) map[string]map[string]int {
 	out := map[string]map[string]int{"handler": {}, "publish": {}, "sub": {}}
 	mfs, _ := reg.Gather()
@@ -518,7 +547,8 @@ func c20Metrics(r *tr.Run, applied int, outs []string, retried bool) {
 	default:
 	}
 	mu.Lock()
-	r.Emit("metrics", "applied", applied, "outs", orig, "retried", retried, "observed", got, "expected", expected)
+	r.Emit("metrics", "applied", applied, "outs", orig, "retried", retried, "observed", got, "expected", expected,
+		"labels", c20Labels(reg, fmt.Sprintf("r%d-h", r.ID)))
 	mu.Unlock()
 	r.NonTrivial = true
 }
